@@ -374,6 +374,30 @@ func c17RunExact(t rt.TB, script []rt.Ev) {
 			fail("Materialize|Dematerialize", "round-trip-not-identity", fmt.Sprintf("over [%s]: %s vs %s", rt.ScriptString(script), cat.TraceOf(rec.Trace()), cat.TraceOf(ref.Trace())))
 		}
 	}
+	// ... including a stream that ends with an error notification whose error value is
+	// nil (the library accepts Error(nil): the subscriber ends errored)
+	if end == 'E' {
+		nilErr := func() ro.Observable[int] {
+			return ro.NewUnsafeObservable(func(d ro.Observer[int]) ro.Teardown {
+				for _, v := range vals {
+					d.Next(v)
+				}
+				d.Error(nil)
+				return nil
+			})
+		}
+		rec, ref := rt.NewRecorder[int](), rt.NewRecorder[int]()
+		var pan any
+		func() {
+			defer func() { pan = recover() }()
+			ro.Dematerialize[int]()(ro.Materialize[int]()(nilErr())).Subscribe(rec)
+			nilErr().Subscribe(ref)
+		}()
+		a, b := rec.Trace(), ref.Trace()
+		if pan != nil || a.End != b.End || (a.Err == nil) != (b.Err == nil) || !(len(a.Vals) == 0 && len(b.Vals) == 0 || reflect.DeepEqual(a.Vals, b.Vals)) {
+			fail("Materialize|Dematerialize", "round-trip-not-identity", fmt.Sprintf("over %v then Error(nil): the round trip delivered %v ending %q (err %v, panic %v), a direct subscription %v ending %q (err %v)", vals, a.Vals, a.End, a.Err, pan, b.Vals, b.End, b.Err))
+		}
+	}
 }
 
 func TestC17_ExactBridges(t *testing.T) {
